@@ -129,7 +129,7 @@ def target_get(obj, path):
     try:
         h, k, item = _holder(obj, path)
         return h[k] if item else getattr(h, k)
-    except (AttributeError, KeyError):
+    except (AttributeError, KeyError, TypeError):  # (TypeError: the parent of the last step is None)
         return MISSING_T
 
 
@@ -158,7 +158,7 @@ class RefAlias:
         self.override = self.NONE
 
     def key(self):
-        return (repr(self.target), repr(self.override))
+        return (repr(self.target), repr(self.override), getattr(self, "parent_gone", False))
 
     def spec(self):
         return self.cfg["host"] == "spec"
@@ -172,6 +172,13 @@ class RefAlias:
     def apply(self, op):
         c = self.cfg
         n = op[0]
+        if n == "null_parent":
+            # whatever holds the last step of the path is replaced by None: from then on there is no target to mirror
+            self.parent_gone = True
+            self.target = MISSING_T
+            return ("value", None)
+        if getattr(self, "parent_gone", False) and n not in ("read_alias", "read_alias_mutate"):
+            return ("skip", None)  # (what writing / deleting through a path whose parent is None should do is not stated)
         if n in ("read_alias", "read_alias_mutate"):
             if self.override != self.NONE:
                 return ("value", self.override)
@@ -244,6 +251,8 @@ def ops_for(cfg):
         ops += [["write_target", 1.0], ["write_target", True]]
     if cfg["fallback"]:
         ops.append(["read_alias_mutate"])
+    if cfg["host"] == "plain" and cfg["path"] != "plain" and not cfg["passthrough"]:
+        ops.append(["null_parent"])
     if cfg["host"] == "plain" or cfg["fallback"]:
         ops.append(["write_alias", None])  # a local override / forwarded value of exactly None is a value
         ops.append(["write_alias", [7]])   # a MUTABLE override (copies of the host must not share it)
@@ -306,6 +315,16 @@ def impl_apply(obj, op, cfg):
             elif n == "delete_target":
                 target_del(obj, path)
                 r = ("value", None)
+            elif n == "null_parent":
+                if path == "dotted":
+                    obj.child = None
+                elif path in ("item", "sqdot"):
+                    obj.d = None
+                elif path == "mixed":
+                    obj.child.d = None
+                elif path == "keydot":
+                    obj.e["k"] = None
+                r = ("value", None)
             elif n == "cow_alias":
                 fp = fingerprint(obj, path)
                 new = obj.with_a(op[1])
@@ -366,6 +385,8 @@ def step(cfg, hist, op, out):
     k0 = ref.key()
     fp0 = fingerprint(obj, cfg["path"])
     exp = ref.apply(op)
+    if exp[0] == "skip":
+        return False, obj, ref
     got, obj2, nwarn, nother = impl_apply(obj, op, cfg)
     case = {"cfg": cfg, "history": list(hist), "op": op}
     sig = dict(cfg, op=op[0])
